@@ -24,7 +24,8 @@ def configs(tier):
     for e in E:
         for aw in range(1, min(e, 3) + 1):
             for fw in (1, 2):
-                inits = [-1] if tier == "quick" and e not in (3, 4) else [-1, 0b101 & ((1 << e) - 1), 0]
+                # init is a mask; negative masks other than -1 are the usual way to reserve the low identifiers (~0b11)
+                inits = ([-1] if e not in (3, 4, 6) else [-1, 0b101 & ((1 << e) - 1), 0, ~0b11, ~0b1]) if tier == "quick" else [-1, 0b101 & ((1 << e) - 1), 0, ~0b11, ~0b101, ~0b1]
                 for init in inits:
                     if tier == "quick" and fw == 2 and aw == 3:
                         continue
